@@ -1,4 +1,4 @@
-"""Native replay (real litex.gen.sim, real AXIUpConverter/AXIDownConverter) of the C10 burst-type / narrow-transfer clauses of contracts/wip_C10_conv_ext.py.
+"""Native replay (real litex.gen.sim, real AXIUpConverter/AXIDownConverter) of the C10 burst-type / narrow-transfer clauses of contracts/C10_conv_ext.py.
 
 An AXI master issues ONE write burst and ONE read burst (type, start address, len, size) through the real converter; on the other side sits an AXI slave
 model that implements the AMBA burst address rules (A3.4.1: FIXED / INCR / WRAP, byte lanes of each transfer) on a byte memory and logs every byte it
